@@ -255,6 +255,18 @@ func init() {
 			Bounds: "two candidates/validators with symbolic stakes, reward and fees symbolic, each validator present or absent in block 2; heights 1 and 2"})
 	}
 
+	// ---------------------------------------------------------- C09 / C29 at node level from the chain's first block
+	{
+		na := append([]string{
+			"node level from the first block: the app-DB and state steps of Blockchain.InitChain are mirrored by the harness (SetStartHeight, version table, the real initState, the block universe standing for the genesis import, the genesis Commit of the state, SetLastHeight, emission, price and their Save calls); the genesis JSON itself is not decoded; then the first block through the real BeginBlock / EndBlock / Commit; initial height 1 (config initial=0) or 8 (initial=7)",
+			"restart = a new Blockchain assembled like NewMinterBlockchain over the same databases (initState at construction if a start height is on disk, else as the first BeginBlock would); the compared content is Info() and the leaves of the state tree the second node works from",
+		}, blockAssumptions...)
+		add("C09", na, HSpec{Pkg: minterPkg, Func: "VerifHarness_Node_FirstBlockThenRestartOrSync", Tier: "quick", Configs: []map[string]int64{cfg("initial", 0, "mode", 0), cfg("initial", 7, "mode", 0)},
+			Bounds: "genesis + one block, then a restart; two validators with symbolic stakes, reward, emission, price"})
+		add("C29", na, HSpec{Pkg: minterPkg, Func: "VerifHarness_Node_FirstBlockThenRestartOrSync", Tier: "quick", Configs: []map[string]int64{cfg("initial", 0, "mode", 1), cfg("initial", 7, "mode", 1)},
+			Bounds: "genesis + one block, then snapshot and restore into a fresh node; stream and IAVL export/import as modelled"})
+	}
+
 	// ---------------------------------------------------------- C25 map races between API reads and block execution
 	{
 		var q, all []map[string]int64
